@@ -9,7 +9,8 @@
   3. TLC on spec/TypedToolMon.tla judges every recorded outcome (verdict) and compares it with the
      code-shaped expectation (drift).
 quick: all output cases, all reflected-type cases with cache=false, every valid explicit-schema case,
-every <=1-deviation boundary case and a seeded sample of the rest; thorough: the complete family.
+every boundary case (<=1 member off the valid base, or <=1 member present) and a seeded sample of the
+rest; thorough: the complete family.
 """
 import json, os, random
 import vlib
@@ -28,6 +29,11 @@ def deviations(c):
     if len(c["cls"]) != len(base):
         return 1  # non-object arguments
     return sum(1 for a, b in zip(c["cls"], base) if a != b)
+
+
+def present(c):
+    """number of members present in the argument object (0 = the empty object)"""
+    return sum(1 for a in c["cls"] if a != "absent")
 
 
 def in_sig(c, o):
@@ -130,14 +136,15 @@ def run(tier, seed, replay):
         rnd = random.Random(seed)
         core, rest = [], []
         for c in cases:
-            if c["kind"] == "out" or c["valid"] or deviations(c) <= 1 or (c["kind"] == "rin" and not c["cache"]):
+            if c["kind"] == "out" or c["valid"] or deviations(c) <= 1 or present(c) <= 1 \
+                    or (c["kind"] == "rin" and not c["cache"]):
                 core.append(c)
             else:
                 rest.append(c)
         chosen = core + rnd.sample(rest, min(QUICK_SAMPLE, len(rest)))
         exhaustive = False
-        rule = ("all output cases, all valid input cases, all <=1-deviation boundary cases, all reflected-type "
-                "cases without cache, plus %d seeded samples of the remaining product" % min(QUICK_SAMPLE, len(rest)))
+        rule = ("all output cases, all valid input cases, all boundary cases (at most one member off the valid base, or at most one "
+                "member present), all reflected-type cases without cache, plus %d seeded samples of the remaining product" % min(QUICK_SAMPLE, len(rest)))
     cin = os.path.join(out, "cases.ndjson")
     vlib.write_ndjson(cin, schemas + chosen)
 
